@@ -167,12 +167,16 @@ PROPS["C14"] = {
     "level": "other",
     "extra": [{"name": "C14/bounded[fault injection, lists<=3]", "kind": "bounded", "tiers": ("quick",), "cmd": ["/venv/bin/python", "native/c14_bounded.py", "3"]},
               {"name": "C14/bounded[fault injection, lists<=7]", "kind": "bounded", "tiers": ("thorough",), "cmd": ["/venv/bin/python", "native/c14_bounded.py", "7"]}],
-    "assumptions": ["release_all_resources: the registry-wide claims are PROVED for an arbitrary resource id r0 (ghost parameter): a resource the operation tracked is not owned by "
-                    "it afterwards, a resource it did not track keeps owner and hold count (loop over a snapshot of the tracked ids, invariant in terms of the visit position). "
-                    "complete_operation / abort_operation are proved to call release_all_resources exactly once and to remove the operation; that the composition "
-                    "execute_operation -> complete/abort -> release_all carries the registry-wide claim to the top is by reading the three contracts together (the callee is "
-                    "havocked in the callers: a frame 'fields of all locks in a map' is not expressible as a modifies clause of the engine) and by the bounded stand-in; "
-                    "'owned by the operation implies tracked by it' (what makes 'tracked' enough) is acquire_resource's postcondition, not a proved registry invariant",
+    "assumptions": ["THE STATEMENT IS PROVED END TO END for an arbitrary resource id r0 (ghost parameter): execute_operation ensures, on every exit path, that no registered resource is "
+                    "owned by the operation, that the operation is no longer listed as active and that a resource it never requested keeps owner and hold count. The chain: "
+                    "release_all_resources (loop over a snapshot of the tracked ids, visit-position invariant) is inlined into complete_operation / abort_operation, whose "
+                    "registry-wide postconditions execute_operation uses THROUGH THEIR CONTRACTS, as it uses acquire_resource's (granted => owned and tracked; every other lock and "
+                    "every other tracking entry untouched, also when it raises); the loop invariant of execute_operation is 'what the operation owns it tracks'",
+                    "assumed at the top: the operation id is fresh (no registered resource is owned under it when the call starts: a `requires`), the registry is keyed by each "
+                    "lock's own id (`requires`), and the havocked callbacks (work_fn, validate_fn, the checkpoints behind controller.advance) do not touch the controller's registry",
+                    "a callee used through its contract with `modifies X[*]` re-freshes the fields of every object stored in the map X (identity kept; the pre-state view keeps the "
+                    "entry values); the callee's own frame obligation covers direct fields of its tracked objects only -- that acquire_resource / complete / abort write no lock other "
+                    "than through the clauses above is carried by their registry-wide postconditions, not by a separate frame check",
                     "tracked locks alias the registered locks (ctx.acquired_resources[r] is controller.resources[r]); registry keyed by each lock's own id",
                     "work_fn / validate_fn / checkpoints (controller.advance) are havocked; DependencyGraph updates and waiting-list maintenance are frame-only collaborators here (C15)",
                     "IntegratedCell.execute and the watchdog's timed kills reach the controller only through abort_operation, whose contract is proved"],
@@ -182,9 +186,9 @@ PROPS["C14"] = {
                    "removed, release_all called); execute_operation: on EVERY exit path exactly one of complete/abort has been called, no exception escapes, work runs at "
                    "most once and only after all acquisitions, validation only after completed work and on its result, success only if both succeeded. Bounded part: fault "
                    "injection over resource lists (with repeats, foreign holders, preemption) and kill/shutdown on the real system.",
-    "level_text": "Mixed: per-function deductive contracts over all inputs/callback behaviours (registry-wide for release_all_resources, by an arbitrary resource id) + "
-                  "bounded fault injection for the end-to-end composition.",
-    "level_note": "Registry-wide claims by ghost generalisation at release_all_resources; callers use the callee havocked; engine and z3 trusted.",
+    "level_text": "Deductive end to end: the registry-wide clauses of the statement are postconditions of execute_operation for an arbitrary resource id, through the "
+                  "contracts of acquire_resource / complete_operation / abort_operation; bounded fault injection (also watchdog kill / manual kill / shutdown) as witness finder.",
+    "level_note": "Fresh operation id and callbacks that leave the registry alone are assumed; watchdog / kill / shutdown paths reach the controller through abort_operation; engine and z3 trusted.",
 }
 
 PROPS["C06"] = {
